@@ -484,6 +484,10 @@ class Parser:
                 self.eat(); continue
             if self.peek() == "#":
                 j = skip_attrs(self.t, self.i)
+                names = {self.t[k + 2][1] for k in range(self.i, j) if self.t[k][1] == "#" and k + 2 < j and self.t[k + 1][1] == "["}
+                if names & {"cfg", "cfg_attr"}:
+                    # conditional compilation inside a function body: which statements exist depends on the build configuration
+                    raise Unsupported("#[cfg] on a statement")
                 self.i = j
                 continue
             s = self.parse_stmt()
